@@ -367,6 +367,22 @@ def _main_batch(check, args, tier, seed, t0):
     kernel.run_pool(_Runner(check, seed, tier), range(nruns), args.nproc,
                     run_timeout=check.run_timeout, wall_budget=budget, on_result=agg.add)
     batch_wall = time.time() - tb
+    # A run that hit a WALL-CLOCK limit (the per-run time-out of the pool, or the scheduler's "threads did not
+    # finish within N s") says something about the load on the machine, not about the code: runs are pure
+    # functions of the seed, so such a run is executed once more, alone, with three times the allowance.  A
+    # harness fault or a real hang fails again and is reported as before.
+    slow = [h for h in agg.harness if h[1] == 'timeout' or 'did not finish within' in h[2] or 'timed out' in h[2]]
+    if slow and len(slow) <= 20:
+        agg.harness = [h for h in agg.harness if h not in slow]
+        saved_to = check.run_timeout
+        check.run_timeout = saved_to * 3
+        try:
+            for (i, st, msg) in slow:
+                res = kernel.run_isolated(_Runner(check, seed, tier), i, check.run_timeout + 30)
+                agg.add(i, res)
+                agg.stats['runs_repeated_after_wall_clock_limit'] += 1
+        finally:
+            check.run_timeout = saved_to
     if agg.harness:
         for h in agg.harness[:5]:
             print('HARNESS run=%s status=%s %s' % h)
